@@ -83,7 +83,7 @@ class Issuer:
             return
         self.g = cg.build(fx)
         self.reach = cg.reachable_from(self.g, [ISSUE])
-        self.fns = [fx.view(n) for n in sorted(self.reach) if not fx.fns[n].is_macro_generated()]
+        self.fns = [f for f in fx.subjects(sorted(self.reach)) if not f.is_macro_generated()]
         self.disc_new = fx.fn(DISC_NEW)
         self.disc_ctors = set(n for n, f in fx.fns.items() if not f.is_macro_generated() and (f.raw.get("ret_ty") or "") == "disclosure::SDJWTDisclosure")
         # object builder: inserts the constant key "_sd" with an Array value built from a local Vec<String>
